@@ -94,18 +94,24 @@ REPLAY_DECL = '''
 
 
 def jobs(tier, seed):
-    h = ND + ('void h_pg(void) { struct Position P = nondet_Position(); W_P = P; sp_of(&P, &G_P0);\n'
-              '  G_SEL = nondet_u32(); G_PC = nondet_u32(); G_SQ = nondet_u32(); G_K = nondet_u32(); G_F = nondet_u32();\n'
-              '  __CPROVER_assume(G_SEL <= 3 && G_PC >= 1 && G_PC <= 12 && G_SQ < 64 && G_K < 4 && G_F < 8);\n'
-              '  for (uint32_t p = 0; p < 13; p++) for (uint32_t s = 0; s < 64; s++) POLYGLOT_PIECE[p][s] = (G_SEL == 0 && p == G_PC && s == G_SQ) ? 1 : 0;\n'
-              '  POLYGLOT_CASTLING_WHITE_SHORT = (G_SEL == 1 && G_K == 0); POLYGLOT_CASTLING_WHITE_LONG = (G_SEL == 1 && G_K == 1);\n'
-              '  POLYGLOT_CASTLING_BLACK_SHORT = (G_SEL == 1 && G_K == 2); POLYGLOT_CASTLING_BLACK_LONG = (G_SEL == 1 && G_K == 3);\n'
-              '  for (uint32_t f = 0; f < 8; f++) POLYGLOT_ENPASSANT[f] = (G_SEL == 2 && f == G_F) ? 1 : 0;\n'
-              '  POLYGLOT_TURN = (G_SEL == 3);\n'
-              '  %s(&P);' % HASH + CANARY + '}\n')
-    j = Job('hash', TUS, [HASH], h, 'h_pg', contracts={HASH: C_HASH}, enforce=HASH, spec=SPEC, post_spec=POST, pre_text=GHOST + SPOS + OCCURS,
-            post=symbolic_constants, unwindset=loops_unwind([('PolyglotBook__hash', 14)]),
-            route='closed-by-complete-unwinding(14 / 11): 12 piece codes, piece lists of capacity 10', timeout=1800,
-            replay=REPLAY, note='key == Polyglot formula, component by component (indicator constants), all well-formed positions')
-    j.replay_decl = REPLAY_DECL
-    return [j]
+    """one obligation group per selected constant class (and per piece code): the ghost selectors are fixed in the harness, so every group is
+    the same function body and contract with a smaller case space; together they cover every value of (G_SEL, G_PC)"""
+    out = []
+    cases = [('piece_%02d' % pc, 0, pc) for pc in range(1, 13)] + [('castling', 1, None), ('enpassant', 2, None), ('turn', 3, None)]
+    for name, sel, pc in cases:
+        h = ND + ('void h_pg(void) { struct Position P = nondet_Position(); W_P = P; sp_of(&P, &G_P0);\n'
+                  '  G_SEL = %d; G_PC = %s; G_SQ = nondet_u32(); G_K = nondet_u32(); G_F = nondet_u32();\n' % (sel, pc if pc is not None else 'nondet_u32()') +
+                  '  __CPROVER_assume(G_SEL <= 3 && G_PC >= 1 && G_PC <= 12 && G_SQ < 64 && G_K < 4 && G_F < 8);\n'
+                  '  for (uint32_t p = 0; p < 13; p++) for (uint32_t s = 0; s < 64; s++) POLYGLOT_PIECE[p][s] = (G_SEL == 0 && p == G_PC && s == G_SQ) ? 1 : 0;\n'
+                  '  POLYGLOT_CASTLING_WHITE_SHORT = (G_SEL == 1 && G_K == 0); POLYGLOT_CASTLING_WHITE_LONG = (G_SEL == 1 && G_K == 1);\n'
+                  '  POLYGLOT_CASTLING_BLACK_SHORT = (G_SEL == 1 && G_K == 2); POLYGLOT_CASTLING_BLACK_LONG = (G_SEL == 1 && G_K == 3);\n'
+                  '  for (uint32_t f = 0; f < 8; f++) POLYGLOT_ENPASSANT[f] = (G_SEL == 2 && f == G_F) ? 1 : 0;\n'
+                  '  POLYGLOT_TURN = (G_SEL == 3);\n'
+                  '  %s(&P);' % HASH + CANARY + '}\n')
+        j = Job('hash/' + name, TUS, [HASH], h, 'h_pg', contracts={HASH: C_HASH}, enforce=HASH, spec=SPEC, post_spec=POST, pre_text=GHOST + SPOS + OCCURS,
+                post=symbolic_constants, unwindset=loops_unwind([('PolyglotBook__hash', 14)]), canary=(name in ('piece_01', 'turn')),
+                route='closed-by-complete-unwinding(14 / 11): 12 piece codes, piece lists of capacity 10', timeout=1800,
+                replay=REPLAY, note='key == Polyglot formula for the selected constant class (%s), all well-formed positions' % name)
+        j.replay_decl = REPLAY_DECL
+        out.append(j)
+    return out
